@@ -163,6 +163,8 @@ func (f *fmt) fmtBoolean(v bool)
   ensures inv(f.buf) && BK(f.buf) && FK(f)
 
 func (f *fmt) truncateString(s string) (r string)
+  requires [C11] f.prec >= 0
+  loop 1 invariant [C11] n >= 0
   modifies nothing
   ensures len(r) <= len(s)
 
@@ -182,8 +184,10 @@ assume func utf8.DecodeRune(q []byte) (r rune, size int)
   ensures 0 <= size && size <= 4 && size <= len(q) && (len(q) > 0 ==> size >= 1)
 
 func (f *fmt) truncate(q []byte) (r []byte)
+  requires [C11] f.prec >= 0
   modifies nothing
   loop 1 invariant 0 <= i && i <= len(b)
+  loop 1 invariant [C11] n >= 0
   ensures len(r) <= len(q)
 
 func (f *fmt) fmtS(s string)
@@ -320,9 +324,12 @@ func (f *fmt) fmtQc(c uint64)
 assume func strconv.AppendFloat(dst []byte, v float64, fmt byte, prec int, bitSize int) (r []byte)
   modifies mem(dst), alloc
   ensures len(r) >= len(dst) + 1 && ((ref(r) == ref(dst) && off(r) == off(dst)) || fresh(r))
+  -- a sign is followed by at least one character
+  ensures len(r) >= len(dst) + 2 || (r[len(dst)] != 45 && r[len(dst)] != 43)
 
 func (f *fmt) fmtFloat(v float64, size int, verb rune, prec int)
-  nosweep
+  requires [C11] -1 <= prec && prec <= 1073741824
+  loop 1 invariant [C11] digits + i >= 0
   loop 1 invariant memKeptExcept(f.intbuf) && (ref(num) == ref(f.intbuf) || fresh(num)) && fresh(tail) && ref(num) != ref(tail) && 1 <= i && len(num) >= 1 && num[0] < 128
   loop 2 invariant memKeptExcept(f.intbuf) && (ref(num) == ref(f.intbuf) || fresh(num)) && fresh(tail) && ref(num) != ref(tail) && len(num) >= 1 && num[0] < 128
   requires f.buf != nil && inv(f.buf) && f.buf.mode != SafeRaw && WP(f)
